@@ -1309,6 +1309,11 @@ func (e *Exec) builtin(b *ssa.Builtin, cc *ssa.CallCommon, args []Value) Value {
 		return nil
 	case "print", "println":
 		return nil
+	case "ssa:wrapnilchk":
+		if p, ok := args[0].(PtrVal); ok && p.Root == nil {
+			panic(goPanic{"value method called using nil pointer"})
+		}
+		return args[0]
 	}
 	panic(abort{"builtin " + b.Name()})
 }
